@@ -46,7 +46,8 @@ TOL_BOX = Fr(1, 10 ** 12)
 TOL_CAP = Fr(1, 10 ** 9)
 DEN_BOUND = 2 ** 18
 BMAX = 64
-FAMILIES = ("smp", "chol", "idx", "cap", "box", "gen")
+FAMILIES = ("smp", "chol", "idx", "cap", "box", "gen", "law", "scale")
+SCALE_BLOCK = 1 << 18            # summary blocks, aligned with 2^20
 
 
 def ecode(a, b, shift=0):
@@ -69,7 +70,8 @@ BOUNDS = {
         CapRadCodes={ecode(a, b) for a, b in _RADS_Q},
         BoxLonCodes={ecode(0, 0), ecode(0, 1), ecode(10, 0), ecode(180, 0), ecode(360, -1), ecode(360, 0)},
         BoxLatCodes={ecode(l, b, 90) for l, b in _BLAT_Q},
-        GenSeeds={1, 2}, GenMax=4),
+        GenSeeds={1, 2}, GenMax=4, LawMax=3, LawLen=3,
+        ScaleNs={1 << 20, (1 << 20) + 1000}, IdxScaleImax={1000000, 2000000}, SmpScaleNs={1000000}),
     "thorough": dict(
         XVals=set(range(0, 6)), MaxNodes=5, PVals={0, 1, 2, 3}, UDen=16, SmpKinds={"density", "cumulative"},
         LDiag={1, 2, 3}, LOffP={0, 1, 2, 3, 4}, LOffShift=2, CholMaxN=3, CholNs={1, 2, 3}, ZSels={1, 2},
@@ -80,15 +82,18 @@ BOUNDS = {
         BoxLonCodes={ecode(0, 0), ecode(0, 1), ecode(10, 0), ecode(180, 0), ecode(180, 1), ecode(359, 0), ecode(360, -1),
                      ecode(360, 0)},
         BoxLatCodes={ecode(l, b, 90) for l, b in _BLAT_T},
-        GenSeeds={1, 2, 3}, GenMax=6),
+        GenSeeds={1, 2, 3}, GenMax=6, LawMax=3, LawLen=4,
+        ScaleNs={(1 << 20) - 1, 1 << 20, (1 << 20) + 1000, (1 << 21) + 7}, IdxScaleImax={1000000, 2000000, 3000017},
+        SmpScaleNs={1000000, (1 << 20) + 1}),
 }
 INVARIANTS = ["SmpTheorems", "SmpMechRefines", "CholFactorIsL0", "CholTheorems", "CholMechRefines", "IdxMechRefines",
               "IdxTheorem", "CapTheorems", "CapMechRefines", "CapPathsAgree", "BoxTheorems", "BoxMechRefines",
-              "GenReproducible"]
+              "GenReproducible", "LawIdxSummary", "LawBlocks", "LawSorted", "ScaleTheorems"]
 ACTIONS = ["SmpChooseGrid", "SmpChooseDens", "SmpMechSearch", "SmpMechEvalStep", "CholChooseN", "CholChooseL",
            "CholFactorStart", "CholFactorCol", "CholDraw", "CholMultiply", "IdxChoose", "IdxDrawOne", "IdxReturn", "IdxReject",
            "CapChooseCentre", "CapChooseRad", "CapChooseDraw", "CapDirectStep", "CapInner", "CapTurnTheta", "CapTurnPhi",
-           "CapFinish", "BoxChooseLon", "BoxChooseLat", "BoxDrawCorner", "GenStart", "GenCall1", "GenCall2"]
+           "CapFinish", "BoxChooseLon", "BoxChooseLat", "BoxDrawCorner", "GenStart", "GenCall1", "GenCall2",
+           "LawIdx", "LawPtsLen", "LawPts", "LawMonoLen", "LawMono", "ScaleChoose"]
 MECH = dict(XShift=0, Dedup="lead_last", Transposed=False, FixedRadius=True)
 
 # lattice concretisations ---------------------------------------------------------------------
@@ -159,12 +164,19 @@ class RecordingRNG(object):
 
     def __init__(self, rng):
         self._rng = rng
-        self.got = []
+        self.chunks = []
 
     def uniform(self, *a, **kw):
         v = self._rng.uniform(*a, **kw)
-        self.got.extend(np.atleast_1d(v).ravel().tolist())
+        self.chunks.append(np.array(v, dtype="f8", copy=True).ravel())
         return v
+
+    def array(self):
+        return np.concatenate(self.chunks) if self.chunks else np.zeros(0)
+
+    @property
+    def got(self):
+        return self.array().tolist()
 
     def __getattr__(self, name):
         return getattr(self._rng, name)
@@ -599,10 +611,174 @@ def ob_cap(c, meta):
     return obs, raw
 
 
-OBSERVERS = {"smp": ob_smp, "smpr": ob_smpr, "chol": ob_chol, "idx": ob_idx, "box": ob_box, "cap": ob_cap}
+# ---------------------------------------------------------------------------------
+# scale : large draws, observed as the summaries Sampler.tla section 7 judges
+def ob_idxs(c, meta):
+    import esutil.random as er
+    o = {"k": 1, "src": meta["src"]}
+    try:
+        a = np.atleast_1d(call(er.random_indices, c["imax"], c["n"], unique=c["unique"], rng=mkgen(meta["src"], meta["seed"])))
+        disturb_global()
+        b = np.atleast_1d(call(er.random_indices, c["imax"], c["n"], unique=c["unique"], rng=mkgen(meta["src"], meta["seed"])))
+        integral = a.dtype.kind in "iu" or bool(np.all(a == np.floor(a)))
+        o.update(err="none", cnt=int(a.size), min=int(np.floor(a.min())) if a.size else 0,
+                 max=(int(np.ceil(a.max())) if integral else c["imax"]) if a.size else 0,
+                 nd=int(np.unique(a).size), repro=same_arrays([a], [b]))
+        raw = {"first": a[:8].tolist(), "dtype": str(a.dtype)}
+    except Exception as e:  # noqa
+        o.update(err=errname(e), cnt=0, min=0, max=0, nd=0, repro=True)
+        raw = repr(e)
+    return [o], [raw]
+
+
+def blocks_of(n):
+    return [(b, min(b + SCALE_BLOCK, n)) for b in range(0, n, SCALE_BLOCK)] or [(0, 0)]
+
+
+def ob_caps(c, meta):
+    import esutil.coords as co
+    ra, dec, rad = (float.fromhex(t) for t in meta["cap"])
+    o = {"k": 1, "src": meta["src"], "getrad": c["getrad"]}
+    try:
+        kw = {"dorot": True} if meta["dorot"] else {}
+        a = call(co.randcap, c["n"], ra, dec, rad, get_radius=bool(c["getrad"]), rng=mkgen(meta["src"], meta["seed"]), **kw)
+        a = [np.atleast_1d(np.asarray(t)) for t in a]
+        m = min(t.size for t in a)
+        L = np.longdouble
+        tol = L(1) / L(10 ** 9)
+        blocks, worst = [], {"sep_over_r": 0.0, "rad_minus_sep": 0.0}
+        for b0, b1 in blocks_of(m):
+            lon, lat = a[0][b0:b1], a[1][b0:b1]
+            sep = sl.sep_ld(np.full(lon.shape, ra), np.full(lon.shape, dec), lon, lat)
+            blk = {"n": int(b1 - b0), "lon_range": int(np.sum(~((lon >= 0.0) & (lon <= 360.0)))),
+                   "lat_range": int(np.sum(~((lat >= -90.0) & (lat <= 90.0)))),
+                   "within": int(np.sum(~(sep <= L(rad) + tol))), "radius_eq_sep": 0}
+            if c["getrad"] and len(a) > 2:
+                dev = np.abs(a[2][b0:b1].astype(L) - sep)
+                blk["radius_eq_sep"] = int(np.sum(~(dev <= tol)))
+                if dev.size:
+                    worst["rad_minus_sep"] = max(worst["rad_minus_sep"], float(np.nanmax(dev)))
+            elif c["getrad"]:
+                blk["radius_eq_sep"] = blk["n"]
+            if sep.size:
+                worst["sep_over_r"] = max(worst["sep_over_r"], float(np.nanmax(sep)) / rad)
+            blocks.append(blk)
+        o.update(err="none", nret=len(a), cnt=[int(t.size) for t in a], blocks=blocks)
+        raw = dict(worst, bad_blocks=[i for i, b in enumerate(blocks) if any(b[k] for k in b if k != "n")], nblocks=len(blocks))
+    except Exception as e:  # noqa
+        o.update(err=errname(e), nret=0, cnt=[], blocks=[])
+        raw = repr(e)
+    return [o], [raw]
+
+
+def ob_boxs(c, meta):
+    import esutil.coords as co
+    ra0, ra1, dec0, dec1 = (float.fromhex(t) for t in meta["box"])
+    o = {"k": 1, "src": meta["src"], "system": meta["system"]}
+    try:
+        a = call(co.randsphere, c["n"], ra_range=[ra0, ra1], dec_range=[dec0, dec1], system=meta["system"],
+                 rng=mkgen(meta["src"], meta["seed"]))
+        a = [np.atleast_1d(np.asarray(t)) for t in a]
+        m = min(t.size for t in a)
+        unit, blocks = True, []
+        for b0, b1 in blocks_of(m):
+            if meta["system"] == "xyz":
+                lon, lat, nrm = xyz_to_lonlat(*(t[b0:b1] for t in a))
+                unit = unit and bool(np.all(np.abs(nrm - 1) <= 1e-12))
+            else:
+                lon, lat = a[0][b0:b1], a[1][b0:b1]
+            t12 = 1e-12
+            blocks.append({"n": int(b1 - b0), "lon_in_box": int(np.sum(~((lon >= ra0 - t12) & (lon <= ra1 + t12)))),
+                           "lat_in_box": int(np.sum(~((lat >= dec0 - t12) & (lat <= dec1 + t12)))),
+                           "lon_range": int(np.sum(~((lon >= 0) & (lon <= 360)))),
+                           "lat_range": int(np.sum(~((lat >= -90) & (lat <= 90))))})
+        o.update(err="none", cnt=[int(t.size) for t in a], blocks=blocks, unit=unit)
+        raw = {"bad_blocks": [i for i, b in enumerate(blocks) if any(b[k] for k in b if k != "n")], "nblocks": len(blocks)}
+    except Exception as e:  # noqa
+        o.update(err=errname(e), cnt=[], blocks=[], unit=True)
+        raw = repr(e)
+    return [o], [raw]
+
+
+def ob_smps(c, meta):
+    o = {"k": 1, "src": meta["src"], "mode": meta["mode"]}
+    try:
+        rec = RecordingRNG(mkgen(meta["src"], meta["seed"]))
+        g = call(smp_build, c, meta["conc"], meta["mode"], rng=rec)
+        a = np.atleast_1d(call(g.sample, c["n"])).ravel()
+        us = rec.array()
+        unit, off = SCONC[meta["conc"]]
+        tol = float(Fr(16, 2 ** 52) * smp_scale(c, off)) * unit
+        xs = [(t + off) * unit for t in smp_xs(c)]
+        first = float(Fr(*meta["first"]))
+        if us.size == a.size:
+            tab, below = us >= first + 1e-12, us < first - 1e-12
+            ingbad = int(np.sum(tab & ~((a >= xs[0] - tol) & (a <= xs[-1] + tol))))
+            belowbad = int(np.sum(below & ~(a <= xs[meta["lr"] - 1] + tol)))
+            order = np.lexsort((a, us))
+            v = a[order]
+            mono = bool(np.all(v[:-1] <= v[1:] + tol)) if v.size > 1 else True
+        else:                                   # no handle on the deviates: only the count is judged
+            ingbad, belowbad, mono = 0, 0, True
+        o.update(err="none", cnt=int(a.size), ingbad=ingbad, belowbad=belowbad, mono=mono)
+        raw = {"first": a[:6].tolist(), "deviates_seen": int(us.size)}
+    except Exception as e:  # noqa
+        o.update(err=errname(e), cnt=0, ingbad=0, belowbad=0, mono=True)
+        raw = repr(e)
+    return [o], [raw]
+
+
+def work_scale(exp, ctx, start):
+    """the exported scale cases; quick takes a covering subset (every size, both paths / sources / options at least once)"""
+    W = []
+    caps = sorted((x for x in exp if x["op"] == "caps"), key=lambda x: (x["n"], x["rot"], x["getrad"], x["src"]))
+    boxs = sorted((x for x in exp if x["op"] == "boxs"), key=lambda x: (x["n"], x["system"], x["src"]))
+    rest = sorted((x for x in exp if x["op"] in ("idxs", "smps")), key=lambda x: json_key(x))
+    if ctx.quick:
+        ns = sorted({x["n"] for x in caps})
+        pick = []
+        for i, n in enumerate(ns):
+            pick += [x for x in caps if x["n"] == n and x["getrad"] and x["rot"] == bool(i % 2) and x["src"] == ("legacy", "generator")[i % 2]]
+        big = ns[-1]
+        pick += [x for x in caps if x["n"] == big and x["getrad"] and x["rot"] != bool((len(ns) - 1) % 2) and x["src"] == "legacy"]
+        caps = pick
+        boxs = [x for x in boxs if x["n"] == big and (x["system"], x["src"]) in (("eq", "legacy"), ("xyz", "generator"))]
+        rest = [x for x in rest if x["op"] == "idxs" or x["src"] == "legacy"]
+    for i, x in enumerate(caps + boxs + rest):
+        seed = ctx.seed * 86028121 + 7 * i + 1
+        if x["op"] == "caps":
+            polar = x["rot"] and x["src"] == "generator"          # rotated: forced by dorot, or chosen by a polar centre
+            cap = (30.0, 89.95, 2.5) if polar else (217.3, -41.7, 2.5)
+            W.append((start + len(W) + 1, "caps", {"n": x["n"], "getrad": x["getrad"]},
+                      {"src": x["src"], "seed": seed, "cap": [float(t).hex() for t in cap], "dorot": x["rot"] and not polar,
+                       "rot": x["rot"]}))
+        elif x["op"] == "boxs":
+            W.append((start + len(W) + 1, "boxs", {"n": x["n"]},
+                      {"src": x["src"], "seed": seed, "system": x["system"], "box": [float(t).hex() for t in (200.0, 220.0, 18.0, 25.0)]}))
+        elif x["op"] == "idxs":
+            W.append((start + len(W) + 1, "idxs", {"imax": x["imax"], "n": x["n"], "unique": x["unique"]},
+                      {"src": x["src"], "seed": seed}))
+        else:
+            c = {"kind": x["kind"], "x": x["x"], "p": x["p"], "n": x["n"]}
+            mode = ("table" if x["src"] == "legacy" else "func_x") if x["kind"] == "density" else \
+                   ("cum_table" if x["src"] == "legacy" else "cum_func")
+            W.append((start + len(W) + 1, "smps", c, {"src": x["src"], "seed": seed, "conc": i % len(SCONC), "mode": mode,
+                                                       "first": x["first"], "lr": x["lr"]}))
+    return W
+
+
+def json_key(x):
+    import json
+    return json.dumps(x, sort_keys=True)
+
+
+OBSERVERS = {"smp": ob_smp, "smpr": ob_smpr, "chol": ob_chol, "idx": ob_idx, "box": ob_box, "cap": ob_cap,
+             "idxs": ob_idxs, "caps": ob_caps, "boxs": ob_boxs, "smps": ob_smps}
 
 
 def observe(item):
+    if item is None:                 # (padding that makes the fork pool take the few heavy scale cases in parallel)
+        return None
     rid, op, c, meta = item
     obs, raw = OBSERVERS[op](c, meta)
     skipped = [o for o in obs if o["err"] == "StubUnsupported"]
@@ -796,11 +972,21 @@ def signatures(rec, o, clause):
             else:
                 out.append("randcap|%s|%s" % (clause, trig))
         return out
+    if op == "idxs":
+        return ["random_indices|%s|%s|%s|large_range" % (clause, "unique" if rec["c"]["unique"] else "replace", o.get("src", ""))]
+    if op == "caps":
+        return ["randcap|%s|%s|%s" % (clause, "rotated" if rec["meta"].get("rot") else "direct",
+                                      "n>2^20" if rec["c"]["n"] > (1 << 20) else "n<=2^20_large")]
+    if op == "boxs":
+        return ["randsphere|%s|%s|large_n" % (clause, o.get("system", ""))]
+    if op == "smps":
+        return ["Generator.sample|%s|%s|large_n" % (clause, o.get("mode", ""))]
     return ["%s|%s" % (op, clause)]
 
 
 NAMES = {"smp": "Generator.sample", "smpr": "Generator.sample", "chol": "the Cholesky sampler", "idx": "random_indices",
-         "box": "randsphere", "cap": "randcap"}
+         "box": "randsphere", "cap": "randcap", "idxs": "random_indices", "caps": "randcap", "boxs": "randsphere",
+         "smps": "Generator.sample"}
 
 
 def judge(ctx, recs, what, leads=None, cap_per_sig=4):
@@ -869,7 +1055,9 @@ def run(ctx):
     r2 = ctx.tlc("SamplerMC.tla", what="export cases",
                  cfg_text=cfg(constants=dict(consts, DoExport=True), next_="NextExport", constraints=["Export"]),
                  workers=1, coverage=False, timeout=3000)
-    exp = {t: r2.records.get(t, []) for t in ("SMP", "CHOL", "IDX", "BOX", "CAP")}
+    exp = {t: r2.records.get(t, []) for t in ("SMP", "CHOL", "IDX", "BOX", "CAP", "SCALE")}
+    if "scale" in fams and len(exp["SCALE"]) < 10:
+        raise MachineryError("too few scale cases exported (%d)" % len(exp["SCALE"]))
     for t, f in (("SMP", "smp"), ("CHOL", "chol"), ("IDX", "idx"), ("BOX", "box"), ("CAP", "cap")):
         if f in fams and len(exp[t]) < 20:
             raise MachineryError("too few %s cases exported (%d)" % (t, len(exp[t])))
@@ -882,6 +1070,8 @@ def run(ctx):
     n_exported = len(W)
     W += [w for w in work_seeded(ctx, len(W)) if w[1].rstrip("r") in fams or w[1] in fams]
     recs = pmap(observe, W, chunk=64)
+    WS = work_scale(exp["SCALE"], ctx, len(W)) if "scale" in fams else []
+    recs += pmap(observe, WS + [None] * max(0, 64 - len(WS)), chunk=1)[:len(WS)] if WS else []
     unsupported = sum(r["unsupported"] for r in recs)
     stubbed = sum(1 for r in recs for o in r["obs"] if o.get("src") == "stub" or r["op"] == "smp")
     if stubbed < 50 and fams == set(FAMILIES):
@@ -941,9 +1131,13 @@ def run(ctx):
         twin("idx", m_idx, lambda r: r["obs"][0]["err"] == "none")
     if "cap" in fams:
         twin("cap", m_cap, lambda r: r["c"]["getrad"] and r["obs"][0]["err"] == "none" and r["obs"][0]["pts"])
+    if "scale" in fams:
+        twin("caps", lambda r, o: dict(o, blocks=[dict(o["blocks"][0], within=1)] + o["blocks"][1:]),
+             lambda r: r["obs"][0]["err"] == "none" and r["obs"][0]["blocks"])
+        twin("idxs", lambda r, o: dict(o, nd=o["nd"] - 1), lambda r: r["c"]["unique"] and r["obs"][0]["err"] == "none")
     if "box" in fams:
         twin("box", m_box, lambda r: r["obs"][0]["err"] == "none" and r["obs"][0]["pts"])
-    if len(probes) < 2 * len([f for f in fams if f != "gen"]):
+    if len(probes) < 2 * len([f for f in fams if f not in ("gen", "law")]):
         ctx.log("binding self-test: only %d probe pairs (some family has no accepted record on this tree)" % (len(probes) // 2))
     if not probes:
         raise MachineryError("binding self-test has no accepted record to corrupt")
